@@ -528,5 +528,10 @@ def run(F, rep):
         raise AnalysisBroken('C01.A1: only %d element branches found (25 confirmed)' % n_a)
     _rec.rule_progress(F, rep, 'C01.R2', lambda g: '/src/' in g.file, 60, 'the library')
     _rec.rule_stack_discipline(F, rep, 'C01.S1', lambda g: '/src/' in g.file, 8, 'the library')
+    from engines import rule_regex_depth
+    rule_regex_depth(F, rep, 'C01.X6', lambda g: '/src/' in g.file,
+                     {('addVersionAndLibcellmlVersionCode', '([0-9]+\\.[0-9]+\\.[0-9]+)'): 'applied to GeneratorProfile::implementationVersionString(), a string the caller configures on the profile: it does not derive from the bytes handed to parseModel, which is what C01 quantifies over'},
+                     3, 'the library')
+    _rec.rule_path_verdicts(F, rep, 'C01.R3', lambda g: '/src/' in g.file, 2, 'the library')
 
 
